@@ -42,10 +42,13 @@ def _set(vals, quote=False):
     return "{" + ", ".join(one(v) for v in vals) + "}"
 
 
-def cfg(modes, kinds, policies, keeps, cacheds, a_values, x_values, menu_ids, max_steps, *, invs=INVS, props=PROPS):
+def cfg(modes, kinds, policies, keeps, cacheds, a_values, x_values, menu_ids, max_steps, *, invs=INVS, props=PROPS,
+        view=False):
     s = (f"CONSTANTS Modes = {_set(modes, True)}\n Kinds = {_set(kinds, True)}\n Policies = {_set(policies, True)}\n"
          f" Keeps = {_set(keeps)}\n Cacheds = {_set(cacheds)}\n As = {_set(a_values)}\n Xs = {_set(x_values)}\n MenuIds = {_set(menu_ids)}\n"
          f" X0 = {X0}\n MaxSteps = {max_steps}\nSPECIFICATION Spec\nCHECK_DEADLOCK FALSE\n")
+    if view:
+        s += "VIEW ImplView\n"
     for i in invs:
         s += f"INVARIANT {i}\n"
     for p in props:
@@ -258,7 +261,9 @@ class _Obs:
 
 
 def replay(ck, obs, label, conf, max_steps, cap, rng):
-    r = ck.tlc("ScenarioAdapter", cfg(*conf, max_steps), dump=True, tag=TAG, workers=4,
+    # thorough: the graph that is replayed hides the ghost history and the step counter (ImplView) - fewer paths
+    # for the same transitions - and the invariants are checked again without the view by the model-only runs
+    r = ck.tlc("ScenarioAdapter", cfg(*conf, max_steps, view=ck.thorough), dump=True, tag=TAG, workers=4,
                require_actions=("ExecuteAdapter", "RunScenario", "SetCurrent") if "adapter" in conf[0]
                else ("RunScenario", "SetClear", "SetDefault", "SetCurrent"))
     menus = [v[1] for v in r.printed() if isinstance(v, tuple) and len(v) == 2 and v[0] == "MENUS"]
@@ -317,11 +322,9 @@ def run(ck):
     ck.assumptions.append(
         "G04: ScenarioAdapter.tla abstracts the inner optimizer (scripted CustomDOE samples / SLSQP on a convex "
         "quadratic); set_bounds_before_opt, multipliers and post-optimal Jacobians are outside the model")
-    a_values = [0, 1, 2] if thorough else [0, 1]
-    menu_ids = [1, 2, 3, 4, 5] if thorough else [1, 2]
-    adapter = (["adapter"], ["doe", "opt"], ["warm", "reset", "set"], [True, False], [True, False], a_values, [1, 3],
-               menu_ids)
-    scenario = (["scenario"], ["doe"], ["warm"], [False], [True], a_values, [1, 3], menu_ids)
+    adapter = (["adapter"], ["doe", "opt"], ["warm", "reset", "set"], [True, False], [True, False], [0, 1], [1, 3],
+               [1, 2])
+    scenario = (["scenario"], ["doe"], ["warm"], [False], [True], [0, 1], [1, 3], [1, 2])
 
     # the hazard the flag exists for: without clearing, a run serves values computed for another parameter
     rr = ck.tlc("ScenarioAdapter", cfg(*scenario, 4, invs=["TypeOK"], props=["NoStaleAfterRun"]), tag=TAG, workers=2,
@@ -331,10 +334,13 @@ def run(ck):
     ck.extra["g04_hazard_refuted_by_tlc"] = {"clause": "NoStaleAfterRun", "mode": "scenario",
                                              "counterexample_length": len(rr.counterexample() or [])}
 
-    replay(ck, obs, "adapter", adapter, 3, 0 if thorough else 300, rng)
+    replay(ck, obs, "adapter", adapter, 3, 6000 if thorough else 300, rng)
     replay(ck, obs, "scenario", scenario, 4, 0 if thorough else 120, rng)
+    # thorough, model only (no view, no dump): larger alphabets / longer behaviours
+    both = ["adapter", "scenario"]
     if thorough:
-        # deeper behaviours, model only (no dump)
-        ck.tlc("ScenarioAdapter", cfg(["adapter"], ["doe", "opt"], ["warm", "reset", "set"], [True, False],
-                                      [True, False], [0, 1], [1, 3], [1, 2], 4), tag=TAG, workers=8)
+        ck.tlc("ScenarioAdapter", cfg(both, ["doe", "opt"], ["warm", "reset", "set"], [True, False], [True, False],
+                                      [0, 1, 2], [1, 3], [1, 2, 3, 4, 5], 3), tag=TAG, workers=8, timeout=900)
+        ck.tlc("ScenarioAdapter", cfg(both, ["doe", "opt"], ["warm", "reset", "set"], [True, False], [True, False],
+                                      [0, 1], [1, 3], [1, 2], 4), tag=TAG, workers=8, timeout=900)
     obs.finish()
